@@ -368,6 +368,29 @@ def generate(rng, tier):
         own = gen_subs(rng, f["mesh"]) if rng.random() < 0.35 else []
         cases.append(dict(kind="round", field=f, rep=["bin", "xml", "txt"][k % 3], subs=own, save=rng.random() < 0.75,
                           stale=gen_subs(rng, f["mesh"])))
+    # --- error path as a sequence: good file, then a REFUSED write to the same name, then read
+    for k in range(24 if quick else 120):
+        f1 = gen_field(rng, True, nmax, cells_max=cmax)
+        if f1["nv"] == 1 or (f1["vdims"] and "field" in f1["vdims"]):
+            f1["vdims"] = None
+        subs1 = gen_subs(rng, f1["mesh"]) if rng.random() < 0.7 else []
+        why = ["ndim", "ndim", "nolabels", "badrep"][k % 4]
+        if why == "ndim":
+            f2 = gen_field(rng, True, 3, nd=rng.choice([1, 2, 4]), cells_max=30)
+            rep2 = rng.choice(["bin", "txt", "xml", None])
+        elif why == "nolabels":
+            f2 = gen_field(rng, True, nmax, cells_max=cmax, nv=rng.choice([2, 3, 4]))
+            f2["vdims"] = []                      # Field(..., vdims=[]) -> no labels
+            rep2 = rng.choice(["bin", "txt", "xml", None])
+        else:
+            f2 = gen_field(rng, True, nmax, cells_max=cmax)
+            rep2 = rng.choice(["bin4", "ascii", "", "XML", "binary"])
+        if f2["nv"] == 1:
+            f2["vdims"] = None
+        subs2 = gen_subs(rng, f2["mesh"]) if rng.random() < 0.8 else []
+        cases.append(dict(kind="refused", why=why, fresh=(k % 6 == 5), first=f1, subs1=subs1,
+                          rep1=["bin", "xml", "txt"][k % 3], second=f2, subs2=subs2, rep2=rep2,
+                          pathlib=rng.random() < 0.5))
     # --- reader alone, on grids written by the bare VTK writers
     for k in range(50 if quick else 300):
         cases.append(gen_read(rng, nmax))
@@ -584,6 +607,11 @@ def build(fd, subs=(), intcorners=False):
     arr = np.array(fls(fd["vals"]), dtype=float).reshape(*m["n"], fd["nv"]).astype(dt)
     valid = np.array(fd["valid"], dtype=bool).reshape(*m["n"])
     arr, valid = relayout(arr, fd.get("layout")), relayout(valid, fd.get("layout"))
+    if fd["vdims"] == []:
+        # labels removed afterwards through the setter (Field(..., nvdim=3, vdims=[]) itself raises TypeError)
+        fld = df.Field(mesh, nvdim=fd["nv"], value=arr, valid=valid)
+        fld.vdims = []
+        return fld
     if fd.get("dtype"):
         return df.Field(mesh, nvdim=fd["nv"], value=arr, vdims=fd["vdims"], valid=valid, dtype=dt)
     return df.Field(mesh, nvdim=fd["nv"], value=arr, vdims=fd["vdims"], valid=valid)
@@ -957,6 +985,79 @@ def run_round(c):
     return rec
 
 
+def file_bytes(path_s):
+    out = []
+    for p_ in (path_s, path_s + ".subregions.json"):
+        out.append(open(p_, "rb").read() if os.path.exists(p_) else None)
+    return out
+
+
+def run_refused(c):
+    """good file (+ side-car) -> refused write to the same name -> the files and the read-back are as before"""
+    rec = dict(kind="refused", case=c, oracle=[], tags=[])
+    d = newdir()
+    path_s = os.path.join(d, "f.vtk")
+    path = pathlib.Path(path_s) if c["pathlib"] else path_s
+    fd1, subs1, fd2, subs2 = c["first"], c["subs1"], c["second"], c["subs2"]
+    f1 = build(fd1, subs1)
+    if not c["fresh"]:
+        f1.to_file(path_s, representation=c["rep1"])
+    before = file_bytes(path_s)
+    listing = sorted(os.listdir(d))
+    f2 = build(fd2, subs2)
+    snap2 = snapshot(f2)
+    kw = {} if c["rep2"] is None else dict(representation=c["rep2"])
+    st2, e2 = attempt(lambda: f2.to_file(path, **kw))
+    rep2 = "bin8" if c["rep2"] is None else c["rep2"]
+    if st2 == "ok":
+        rec["oracle"].append("bad-write-accepted")
+    if file_bytes(path_s) != before or sorted(os.listdir(d)) != listing:
+        rec["oracle"].append("refused-write-changed-files")
+    if not same_snapshot(snap2, snapshot(f2)):
+        rec["oracle"].append("operand-changed")
+    m2 = fd2["mesh"]
+    refused = (f"CRound {g.b(m2['exact'])} {g.b(fd2['pyth'])} {g.s(rep2)} {c_field_in(fd2, f2)} {c_subs(subs2)} true "
+               f"None None None")
+    obs = dict(refused=e2 if st2 != "ok" else "accepted")
+    coq = refused
+    st_r = "fresh"
+    if not c["fresh"] and st2 != "ok":
+        m1 = fd1["mesh"]
+        fo = bare_read(path_s)
+        st_r, r = attempt(lambda: df.Field.from_file(path_s if c["pathlib"] else pathlib.Path(path_s)))
+        if st_r != "ok":
+            rec["oracle"].append("read-after-refused-write-rejected")
+            cobs = "None"
+            obs["read_err"] = r
+        else:
+            ro = field_obs(r)
+            obs["read"] = ro
+            cobs = f"(Some {c_fld(ro)})"
+            lo, hi, _ = geom(m1)
+            txt = c["rep1"] == "txt"
+            same = (lambda a, b: close10(a, b)) if txt else (lambda a, b: a == b)
+            want = [F(x) for x in fd1["vals"]]
+            want_subs = [[nm, [F(x) for x in a], [F(x) for x in b]] for nm, a, b in subs1]
+            if not (all(same(a, b) for a, b in zip(lo, ro["pmin"])) and all(same(a, b) for a, b in zip(hi, ro["pmax"]))
+                    and ro["n"] == list(m1["n"]) and ro["nv"] == fd1["nv"] and len(ro["vals"]) == len(want)
+                    and all(same(a, b) for a, b in zip(want, ro["vals"])) and ro["valid"] == list(fd1["valid"])
+                    and ro["vdims"] == (None if f1.vdims is None else list(f1.vdims))):
+                rec["oracle"].append("read-after-refused-write-differs")
+            if [[nm, a, b] for nm, a, b in ro["subs"]] != want_subs:
+                rec["oracle"].append("read-after-refused-write-subregions")
+        first = (f"CRound {g.b(m1['exact'])} {g.b(fd1['pyth'])} {g.s(c['rep1'])} {c_field_in(fd1, f1)} {c_subs(subs1)} "
+                 f"true None (Some {c_grid(fo)}) {cobs}")
+        obs["file"] = fo
+        coq = f"CBoth ({first}) ({refused})"
+    rec["oracle"] = sorted(set(rec["oracle"]))
+    rec.update(obs=jsafe(obs), coq=coq,
+               key=f"refused/{c['why']}/{c['fresh']}/{c['rep1']}/{c['rep2']}/{len(m2['n'])}/{fd2['nv']}/{len(subs1)}/"
+                   f"{len(subs2)}/{st2}/{st_r}/{c['pathlib']}",
+               size=sum(fd1["mesh"]["n"]) + sum(m2["n"]))
+    shutil.rmtree(d, ignore_errors=True)
+    return rec
+
+
 def write_side(path, side):
     if side is None:
         return
@@ -1056,7 +1157,7 @@ def run_legacy(c):
 
 
 def run_case(c):
-    return dict(grid=run_grid, round=run_round, read=run_read, legacy=run_legacy)[c["kind"]](c)
+    return dict(grid=run_grid, round=run_round, read=run_read, legacy=run_legacy, refused=run_refused)[c["kind"]](c)
 
 
 def stats(records):
